@@ -3,6 +3,7 @@ import Cvise.Proofs.BinaryMonotone
 import Cvise.Proofs.BinaryNoSingle
 import Cvise.Proofs.BinaryTerm
 import Cvise.Proofs.BinaryVariants
+import Cvise.Proofs.GcdaBytes
 /-!
 # C06 — delta-debugging passes are complete
 
@@ -139,6 +140,15 @@ theorem gcda_trace_is_run (test : List α → Bool) (fuel : Nat) (l : List α) :
     (gcdaStartTrace test fuel l).map (·.1) = gcdaStart test fuel l := gcdaStartTrace_fst test fuel l
 
 example : gcdaStart (reqTest [1, 3]) (gcdaFuel 5) [0, 1, 2, 3, 4] = some [1, 3] := by decide
+
+/-- the gcda pass works on bytes (`data[0 : functions[index]] + data[functions[end] :]`); with the function offsets in ascending
+    order that candidate *is* the item-level candidate of the run model: the header followed by the records `cut` leaves -/
+theorem gcda_bytes_are_items (data offs : List Nat) (i e : Nat) (h : Ascending offs) (hi : i < e) (he : e ≤ offs.length) :
+    gcdaBytes data offs i e = data.take (offs.getD 0 0) ++ (cut (gcdaRecs data offs) i e).flatten :=
+  gcdaBytes_eq_cut data offs i e h hi he
+
+example : gcdaBytes [9, 9, 1, 1, 2, 3, 3, 3] [2, 4, 5] 1 2 = [9, 9, 1, 1, 3, 3, 3] ∧
+    gcdaRecs [9, 9, 1, 1, 2, 3, 3, 3] [2, 4, 5] = [[1, 1], [2], [3, 3, 3]] := by decide
 
 /-! ## ifs: the cursor carries the value the directives are replaced with; the test may depend on it -/
 
